@@ -53,9 +53,55 @@ type ScenCase struct {
 	Shots     int     `json:"shots"` // scenario invocations (ammo limit)
 	Instances int     `json:"instances"`
 	AuthMD    []MD    `json:"auth_metadata"`
-	Calls     []SCall `json:"calls"` // after the leading auth call
+	Calls     []SCall `json:"calls"` // call definitions; the first scenario "sc" lists them in this order after the leading auth call
 	Shared    bool    `json:"shared_client"`
 	TimeoutMs int     `json:"timeout_ms"`
+	// Further scenarios "sc1", "sc2" of the same file, referring to the SAME call definitions (auth and c<i>) in an
+	// order and with multiplicities of their own. With several scenarios each one lists, right after auth, a marker
+	// call m<k> of its own (Hello, name = the token of this invocation), by which the server's log tells which
+	// scenario an invocation was.
+	Extra  []Scen `json:"extra_scenarios,omitempty"`
+	Weight int    `json:"weight,omitempty"` // weight of the first scenario (0 = 1)
+}
+
+type SRef struct {
+	Call  int `json:"call"`  // index into Calls
+	Count int `json:"count"` // multiplicity
+}
+
+type Scen struct {
+	Weight int    `json:"weight"`
+	Refs   []SRef `json:"refs"`
+}
+
+func scenName(k int) string {
+	if k == 0 {
+		return "sc"
+	}
+	return fmt.Sprintf("sc%d", k)
+}
+
+// refs of scenario k (0 = the first one)
+func (c ScenCase) refs(k int) []SRef {
+	if k == 0 {
+		out := make([]SRef, len(c.Calls))
+		for i, cl := range c.Calls {
+			out[i] = SRef{i, cl.Count}
+		}
+		return out
+	}
+	return c.Extra[k-1].Refs
+}
+
+func (c ScenCase) weight(k int) int {
+	w := c.Weight
+	if k > 0 {
+		w = c.Extra[k-1].Weight
+	}
+	if w <= 0 {
+		w = 1
+	}
+	return w
 }
 
 var mdKeys = []string{"authorization", "x-login", "x-pass", "x-user", "x-trace", "x-lit", "x-src", "payload", "url", "body"}
@@ -99,6 +145,21 @@ func genScenCase(t *rapid.T) ScenCase {
 			Count:  rapid.IntRange(1, 3).Draw(t, "count"),
 			MD:     genMD(t, false),
 		})
+	}
+	// two cases in three: 1-2 further scenarios over the same calls; the provider hands the scenarios out in turn by
+	// weight, so one instance shoots them in mixed order
+	for k, extra := 0, rapid.SampledFrom([]int{0, 1, 1, 2, 2, 2}).Draw(t, "extraScenarios"); k < extra; k++ {
+		sc := Scen{Weight: rapid.IntRange(1, 3).Draw(t, "weight")}
+		for r, refs := 0, rapid.IntRange(1, 4).Draw(t, "refs"); r < refs; r++ {
+			sc.Refs = append(sc.Refs, SRef{
+				Call:  rapid.IntRange(0, n-1).Draw(t, "refCall"),
+				Count: rapid.SampledFrom([]int{1, 1, 2, 3}).Draw(t, "refCount"),
+			})
+		}
+		c.Extra = append(c.Extra, sc)
+	}
+	if len(c.Extra) > 0 {
+		c.Weight = rapid.IntRange(1, 3).Draw(t, "weight0")
 	}
 	return c
 }
@@ -151,12 +212,25 @@ func (c ScenCase) yaml(csv string) string {
 			sb.WriteString("    payload: '{\"user_id\": {{.request.auth.postprocessor.userId}}, \"item_id\": {{.source.vars.item}}, \"token\": \"{{.request.auth.postprocessor.token}}\"}'\n")
 		}
 	}
-	sb.WriteString("scenarios:\n  - name: sc\n    weight: 1\n    min_waiting_time: 0\n    requests:\n      - auth\n")
-	for i, cl := range c.Calls {
-		if cl.Count == 1 {
-			fmt.Fprintf(&sb, "      - c%d\n", i)
-		} else {
-			fmt.Fprintf(&sb, "      - c%d(%d)\n", i, cl.Count)
+	multi := len(c.Extra) > 0
+	if multi {
+		for k := 0; k <= len(c.Extra); k++ {
+			fmt.Fprintf(&sb, "  - name: m%d\n    tag: m%d\n    call: target.TargetService.Hello\n    metadata:\n      x-step: m%d\n", k, k, k)
+			sb.WriteString("    payload: '{\"name\": \"{{.request.auth.postprocessor.token}}\"}'\n")
+		}
+	}
+	sb.WriteString("scenarios:\n")
+	for k := 0; k <= len(c.Extra); k++ {
+		fmt.Fprintf(&sb, "  - name: %s\n    weight: %d\n    min_waiting_time: 0\n    requests:\n      - auth\n", scenName(k), c.weight(k))
+		if multi {
+			fmt.Fprintf(&sb, "      - m%d\n", k)
+		}
+		for _, r := range c.refs(k) {
+			if r.Count == 1 {
+				fmt.Fprintf(&sb, "      - c%d\n", r.Call)
+			} else {
+				fmt.Fprintf(&sb, "      - c%d(%d)\n", r.Call, r.Count)
+			}
 		}
 	}
 	return sb.String()
@@ -166,6 +240,8 @@ type inv struct {
 	login, pass, token string
 	uid                int64
 	calls              map[string]int // step -> calls seen
+	scen               int            // which scenario it was, by its marker call (several scenarios only)
+	markers            int
 }
 
 func one(call target.GCall, k string) (string, bool) {
@@ -283,6 +359,7 @@ func checkScen(c ScenCase, o *vf.Obs) error {
 	if len(invs) != c.Shots {
 		return fail("%d Auth calls reached the server, %d scenario invocations were shot", len(invs), c.Shots)
 	}
+	multi := len(c.Extra) > 0
 	for _, call := range calls {
 		if call.Method == "Auth" {
 			continue
@@ -290,6 +367,20 @@ func checkScen(c ScenCase, o *vf.Obs) error {
 		var token string
 		var uid, item int64
 		switch r := call.Req.(type) {
+		case *server.HelloRequest:
+			// the marker call of a scenario: name = the token of the invocation
+			iv := byToken[r.Name]
+			if !multi || iv == nil {
+				return fail("unexpected Hello call (name %q): no scenario of the description renders it", r.Name)
+			}
+			step, ok := one(call, "x-step")
+			k, err := strconv.Atoi(strings.TrimPrefix(step, "m"))
+			if !ok || !strings.HasPrefix(step, "m") || err != nil || k < 0 || k > len(c.Extra) {
+				return fail("Hello call arrived with x-step metadata %q, the marker calls carry m0..m%d", step, len(c.Extra))
+			}
+			iv.scen = k
+			iv.markers++
+			continue
 		case *server.ListRequest:
 			token, uid = r.Token, r.UserId
 		case *server.OrderRequest:
@@ -323,10 +414,20 @@ func checkScen(c ScenCase, o *vf.Obs) error {
 		}
 		iv.calls[step]++
 	}
+	scenSeen := map[int]int{}
 	for _, iv := range invs {
-		for i, cl := range c.Calls {
-			if got := iv.calls[fmt.Sprintf("c%d", i)]; got != cl.Count {
-				return fail("invocation of %s (token %s): call c%d reached the server %d times, the scenario lists it %d times", iv.login, iv.token, i, got, cl.Count)
+		if multi && iv.markers != 1 {
+			return fail("invocation of %s (token %s): %d marker calls reached the server, every scenario lists exactly one", iv.login, iv.token, iv.markers)
+		}
+		scenSeen[iv.scen]++
+		want := make([]int, len(c.Calls))
+		for _, r := range c.refs(iv.scen) {
+			want[r.Call] += r.Count
+		}
+		for i := range c.Calls {
+			if got := iv.calls[fmt.Sprintf("c%d", i)]; got != want[i] {
+				return fail("invocation of %s (token %s, scenario %s): call c%d reached the server %d times, the scenario lists it %d times",
+					iv.login, iv.token, scenName(iv.scen), i, got, want[i])
 			}
 		}
 	}
@@ -335,7 +436,7 @@ func checkScen(c ScenCase, o *vf.Obs) error {
 	for _, iv := range invs {
 		gotRows[iv.login]++
 	}
-	for i := 0; i < c.Rows; i++ {
+	for i := 0; i < c.Rows && !multi; i++ {
 		want := c.Shots / c.Rows
 		if i < c.Shots%c.Rows {
 			want++
@@ -363,25 +464,62 @@ func checkScen(c ScenCase, o *vf.Obs) error {
 		}
 		tags[strings.SplitN(f[1], "|", 2)[0]]++
 	}
-	wantTags := map[string]int{"sc.auth": c.Shots}
-	for i, cl := range c.Calls {
-		wantTags[fmt.Sprintf("sc.t%d", i)] += c.Shots * cl.Count
+	wantTags := map[string]int{}
+	for _, iv := range invs {
+		sn := scenName(iv.scen)
+		wantTags[sn+".auth"]++
+		if multi {
+			wantTags[fmt.Sprintf("%s.m%d", sn, iv.scen)]++
+		}
+		for _, r := range c.refs(iv.scen) {
+			wantTags[fmt.Sprintf("%s.t%d", sn, r.Call)] += r.Count
+		}
 	}
 	if fmt.Sprint(sortedCounts(tags)) != fmt.Sprint(sortedCounts(wantTags)) {
 		return fail("samples by tag %v, expected %v", sortedCounts(tags), sortedCounts(wantTags))
 	}
 	perInv, captured := false, false
-	for _, cl := range c.Calls {
+	sharedPerInv := false // a call with per-invocation metadata that invocations of two different scenarios made
+	for i, cl := range c.Calls {
+		callPerInv := false
 		for _, m := range cl.MD {
 			if m.Kind == "token" || m.Kind == "uid" {
 				captured = true
 			}
 			if m.Kind != "lit" && m.Kind != "src" {
-				perInv = true
+				perInv, callPerInv = true, true
 			}
 		}
 		o.ClassIf(cl.Count > 1, "multiplicity_gt_1")
+		users := 0
+		for k := range scenSeen {
+			for _, r := range c.refs(k) {
+				if r.Call == i {
+					users++
+					break
+				}
+			}
+		}
+		sharedPerInv = sharedPerInv || (callPerInv && users >= 2)
 	}
+	// the order in which the Auth calls arrived: did some scenario come back after another one was shot
+	switches := 0
+	for a := 1; a < len(invs); a++ {
+		if invs[a].scen != invs[a-1].scen {
+			switches++
+		}
+	}
+	mixed := switches >= 2
+	for _, m := range c.AuthMD {
+		if (m.Kind == "login" || m.Kind == "pass") && len(scenSeen) >= 2 {
+			sharedPerInv = true // auth is every scenario's first call
+		}
+	}
+	o.ClassIf(multi, "several_scenarios")
+	o.ClassIf(len(scenSeen) >= 2, "several_scenarios_shot")
+	o.ClassIf(len(scenSeen) >= 2 && mixed, "scenarios_in_mixed_order")
+	o.ClassIf(sharedPerInv, "shared_call_per_invocation_metadata")
+	o.ClassIf(sharedPerInv && c.Instances == 1, "shared_call_per_invocation_metadata_one_instance")
 	for _, m := range c.AuthMD {
 		if m.Kind == "login" || m.Kind == "pass" {
 			perInv = true
